@@ -117,11 +117,6 @@ def _ifnotinit(c):
     c.ensures('follows_initialisation_state', If(out != Val.Undef, c.rv == Val.VNone, is_dict_result(c, d)))
 
 
-@contract('Block.is_initialized', qual='edzed.block:Block.is_initialized', modifies=(), self_cls='Block')
-def _is_initialized(c):
-    c.ensures('output_defined', c.rv == Val.B(c.pre('_output', c.z('self')) != Val.Undef))
-
-
 # ------------------------------------------------------------------------------------------ DataEdit closures
 def str_keys(c, *names):
     return And(*[Val.is_S(c.v(n)) for n in names])
